@@ -2,7 +2,7 @@
 Facts about the frame building model (`Model/WsEncode.lean`): what `AcquireFrame … SetPayload … MaskPayload … Encode`
 put on the wire, for an arbitrary pooled slice.
 -/
-import Sonic.Model.WsStream
+import Sonic.Model.WsWritePath
 import Sonic.Spec.WsWire
 import Sonic.Lemmas.WsDecode
 import Sonic.Lemmas.WsEncodeSpec
